@@ -84,6 +84,11 @@ theorem Same.trans {a b c : St} (h1 : Same a b) (h2 : Same b c) : Same a c :=
 def Quiet (e : Err) : Prop :=
   e ≠ .ub .arenaOverflow ∧ e ≠ .ub .breakIndex ∧ e ≠ .ub .continueIndex
 
+/-- error predicates implied by `Quiet` (so that the frame lemmas can be used under any of them) -/
+class QuietImp (E : Err → Prop) : Prop where
+  imp : ∀ e, Quiet e → E e
+instance : QuietImp Quiet := ⟨fun _ h => h⟩
+
 /-- a primitive that keeps both frames and fails quietly -/
 abbrev Neutral (s : St) (x : R St) : Prop := wp x (fun s' => Same s s') Quiet
 
@@ -213,11 +218,11 @@ macro "same_close" : tactic =>
 
 /-- apply the frame lemma of a primitive to the head of a `wp` goal (extended below, lemma by lemma) -/
 syntax "wp_prim" : tactic
-macro_rules | `(tactic| wp_prim) => `(tactic| with_reducible refine wp_mono (write_neutral _ _) ?_ (fun _ h => h))
-macro_rules | `(tactic| wp_prim) => `(tactic| with_reducible refine wp_mono (moveBack_neutral _ _) ?_ (fun _ h => h))
-macro_rules | `(tactic| wp_prim) => `(tactic| with_reducible refine wp_mono (setAt_neutral _ _ _) ?_ (fun _ h => h))
-macro_rules | `(tactic| wp_prim) => `(tactic| with_reducible refine wp_mono (clearPrev_neutral _) ?_ (fun _ h => h))
-macro_rules | `(tactic| wp_prim) => `(tactic| with_reducible refine wp_mono (prevOp_read _) ?_ (fun _ h => h))
+macro_rules | `(tactic| wp_prim) => `(tactic| with_reducible refine wp_mono (write_neutral _ _) ?_ (fun _ h => QuietImp.imp _ h))
+macro_rules | `(tactic| wp_prim) => `(tactic| with_reducible refine wp_mono (moveBack_neutral _ _) ?_ (fun _ h => QuietImp.imp _ h))
+macro_rules | `(tactic| wp_prim) => `(tactic| with_reducible refine wp_mono (setAt_neutral _ _ _) ?_ (fun _ h => QuietImp.imp _ h))
+macro_rules | `(tactic| wp_prim) => `(tactic| with_reducible refine wp_mono (clearPrev_neutral _) ?_ (fun _ h => QuietImp.imp _ h))
+macro_rules | `(tactic| wp_prim) => `(tactic| with_reducible refine wp_mono (prevOp_read _) ?_ (fun _ h => QuietImp.imp _ h))
 
 /-- run through a `Neutral` goal -/
 macro "wp_auto" : tactic =>
@@ -230,68 +235,68 @@ macro "wp_auto" : tactic =>
 theorem absorb_neutral (s : St) : Neutral s s.absorb := by
   unfold St.absorb
   wp_auto
-macro_rules | `(tactic| wp_prim) => `(tactic| with_reducible refine wp_mono (absorb_neutral _) ?_ (fun _ h => h))
+macro_rules | `(tactic| wp_prim) => `(tactic| with_reducible refine wp_mono (absorb_neutral _) ?_ (fun _ h => QuietImp.imp _ h))
 
 theorem emitOpWith_neutral (s : St) (op : Nat) (off : Int) : Neutral s (s.emitOpWith op off) := by
   unfold St.emitOpWith
   wp_auto
-macro_rules | `(tactic| wp_prim) => `(tactic| with_reducible refine wp_mono (emitOpWith_neutral _ _ _) ?_ (fun _ h => h))
+macro_rules | `(tactic| wp_prim) => `(tactic| with_reducible refine wp_mono (emitOpWith_neutral _ _ _) ?_ (fun _ h => QuietImp.imp _ h))
 
 theorem emitOp_neutral (s : St) (op : Nat) : Neutral s (s.emitOp op) := by
   unfold St.emitOp
   wp_auto
-macro_rules | `(tactic| wp_prim) => `(tactic| with_reducible refine wp_mono (emitOp_neutral _ _) ?_ (fun _ h => h))
+macro_rules | `(tactic| wp_prim) => `(tactic| with_reducible refine wp_mono (emitOp_neutral _ _) ?_ (fun _ h => QuietImp.imp _ h))
 
 theorem emitOpBytes_neutral (s : St) (op : Nat) (bs : List Nat) : Neutral s (s.emitOpBytes op bs) := by
   unfold St.emitOpBytes
   wp_auto
-macro_rules | `(tactic| wp_prim) => `(tactic| with_reducible refine wp_mono (emitOpBytes_neutral _ _ _) ?_ (fun _ h => h))
+macro_rules | `(tactic| wp_prim) => `(tactic| with_reducible refine wp_mono (emitOpBytes_neutral _ _ _) ?_ (fun _ h => QuietImp.imp _ h))
 
 
 theorem emitInteger_neutral (s : St) (v : Nat) : Neutral s (s.emitInteger v) := by
   unfold St.emitInteger
   wp_auto
-macro_rules | `(tactic| wp_prim) => `(tactic| with_reducible refine wp_mono (emitInteger_neutral _ _) ?_ (fun _ h => h))
+macro_rules | `(tactic| wp_prim) => `(tactic| with_reducible refine wp_mono (emitInteger_neutral _ _) ?_ (fun _ h => QuietImp.imp _ h))
 
 theorem varToBool_neutral (s : St) : Neutral s (s.varToBool) := by
   unfold St.varToBool
   wp_auto
-macro_rules | `(tactic| wp_prim) => `(tactic| with_reducible refine wp_mono (varToBool_neutral _) ?_ (fun _ h => h))
+macro_rules | `(tactic| wp_prim) => `(tactic| with_reducible refine wp_mono (varToBool_neutral _) ?_ (fun _ h => QuietImp.imp _ h))
 
 theorem boolNot_neutral (s : St) : Neutral s (s.boolNot) := by
   unfold St.boolNot
   wp_auto
-macro_rules | `(tactic| wp_prim) => `(tactic| with_reducible refine wp_mono (boolNot_neutral _) ?_ (fun _ h => h))
+macro_rules | `(tactic| wp_prim) => `(tactic| with_reducible refine wp_mono (boolNot_neutral _) ?_ (fun _ h => QuietImp.imp _ h))
 
 theorem boolToVar_neutral (s : St) : Neutral s (s.boolToVar) := by
   unfold St.boolToVar
   wp_auto
-macro_rules | `(tactic| wp_prim) => `(tactic| with_reducible refine wp_mono (boolToVar_neutral _) ?_ (fun _ h => h))
+macro_rules | `(tactic| wp_prim) => `(tactic| with_reducible refine wp_mono (boolToVar_neutral _) ?_ (fun _ h => QuietImp.imp _ h))
 
 theorem boolJump_neutral (s : St) (t : Bool) : Neutral s (s.boolJump t) := by
   unfold St.boolJump
   wp_auto
-macro_rules | `(tactic| wp_prim) => `(tactic| with_reducible refine wp_mono (boolJump_neutral _ _) ?_ (fun _ h => h))
+macro_rules | `(tactic| wp_prim) => `(tactic| with_reducible refine wp_mono (boolJump_neutral _ _) ?_ (fun _ h => QuietImp.imp _ h))
 
 theorem emitNot_neutral (s : St) : Neutral s (s.emitNot) := by
   unfold St.emitNot
   wp_auto
-macro_rules | `(tactic| wp_prim) => `(tactic| with_reducible refine wp_mono (emitNot_neutral _) ?_ (fun _ h => h))
+macro_rules | `(tactic| wp_prim) => `(tactic| with_reducible refine wp_mono (emitNot_neutral _) ?_ (fun _ h => QuietImp.imp _ h))
 
 theorem addJumpLocation_neutral (s : St) (p : Nat) : Neutral s (s.addJumpLocation p) := by
   unfold St.addJumpLocation
   wp_auto
-macro_rules | `(tactic| wp_prim) => `(tactic| with_reducible refine wp_mono (addJumpLocation_neutral _ _) ?_ (fun _ h => h))
+macro_rules | `(tactic| wp_prim) => `(tactic| with_reducible refine wp_mono (addJumpLocation_neutral _ _) ?_ (fun _ h => QuietImp.imp _ h))
 
 theorem emitJumpBack_neutral (s : St) (p : Nat) : Neutral s (s.emitJumpBack p) := by
   unfold St.emitJumpBack
   wp_auto
-macro_rules | `(tactic| wp_prim) => `(tactic| with_reducible refine wp_mono (emitJumpBack_neutral _ _) ?_ (fun _ h => h))
+macro_rules | `(tactic| wp_prim) => `(tactic| with_reducible refine wp_mono (emitJumpBack_neutral _ _) ?_ (fun _ h => QuietImp.imp _ h))
 
 theorem emitEof_neutral (s : St) : Neutral s (s.emitEof) := by
   unfold St.emitEof
   wp_auto
-macro_rules | `(tactic| wp_prim) => `(tactic| with_reducible refine wp_mono (emitEof_neutral _) ?_ (fun _ h => h))
+macro_rules | `(tactic| wp_prim) => `(tactic| with_reducible refine wp_mono (emitEof_neutral _) ?_ (fun _ h => QuietImp.imp _ h))
 
 theorem evalPrev_read (s : St) : wp s.evalPrev (fun _ => True) Quiet := by
   unfold St.evalPrev
@@ -299,17 +304,17 @@ theorem evalPrev_read (s : St) : wp s.evalPrev (fun _ => True) Quiet := by
   refine wp_mono (prevOp_read _) ?_ (fun _ h => h)
   intro p _
   repeat' (first | (simp only [wp_ok]; done) | split)
-macro_rules | `(tactic| wp_prim) => `(tactic| with_reducible refine wp_mono (evalPrev_read _) ?_ (fun _ h => h))
+macro_rules | `(tactic| wp_prim) => `(tactic| with_reducible refine wp_mono (evalPrev_read _) ?_ (fun _ h => QuietImp.imp _ h))
 
 theorem emitFunc1_neutral (s : St) (op : Nat) : Neutral s (s.emitFunc1 op) := by
   unfold St.emitFunc1
   wp_auto
-macro_rules | `(tactic| wp_prim) => `(tactic| with_reducible refine wp_mono (emitFunc1_neutral _ _) ?_ (fun _ h => h))
+macro_rules | `(tactic| wp_prim) => `(tactic| with_reducible refine wp_mono (emitFunc1_neutral _ _) ?_ (fun _ h => QuietImp.imp _ h))
 
 theorem emitParameter_neutral (s : St) (p : Node) : Neutral s (s.emitParameter p) := by
   unfold St.emitParameter
   wp_auto
-macro_rules | `(tactic| wp_prim) => `(tactic| with_reducible refine wp_mono (emitParameter_neutral _ _) ?_ (fun _ h => h))
+macro_rules | `(tactic| wp_prim) => `(tactic| with_reducible refine wp_mono (emitParameter_neutral _ _) ?_ (fun _ h => QuietImp.imp _ h))
 
 theorem emitParameters_neutral : ∀ (ps : Nodes) (s : St), Neutral s (St.emitParameters ps s)
   | .nil, s => Same.refl s
@@ -319,16 +324,16 @@ theorem emitParameters_neutral : ∀ (ps : Nodes) (s : St), Neutral s (St.emitPa
     wp_prim
     intro a ha
     exact Neutral.of_same ha (emitParameters_neutral ps a)
-macro_rules | `(tactic| wp_prim) => `(tactic| with_reducible refine wp_mono (emitParameters_neutral _ _) ?_ (fun _ h => h))
+macro_rules | `(tactic| wp_prim) => `(tactic| with_reducible refine wp_mono (emitParameters_neutral _ _) ?_ (fun _ h => QuietImp.imp _ h))
 
 theorem emitLabelParameterList_neutral (s : St) (h : Bool) (ps : Nodes) : Neutral s (s.emitLabelParameterList h ps) := by
   unfold St.emitLabelParameterList
   wp_auto
-macro_rules | `(tactic| wp_prim) => `(tactic| with_reducible refine wp_mono (emitLabelParameterList_neutral _ _ _) ?_ (fun _ h => h))
+macro_rules | `(tactic| wp_prim) => `(tactic| with_reducible refine wp_mono (emitLabelParameterList_neutral _ _ _) ?_ (fun _ h => QuietImp.imp _ h))
 
 theorem emitExec_neutral (s : St) (a b n : Nat) (off : Int) (ev : Nat) : Neutral s (s.emitExec a b n off ev) := by
   unfold St.emitExec
   wp_auto
-macro_rules | `(tactic| wp_prim) => `(tactic| with_reducible refine wp_mono (emitExec_neutral _ _ _ _ _ _) ?_ (fun _ h => h))
+macro_rules | `(tactic| wp_prim) => `(tactic| with_reducible refine wp_mono (emitExec_neutral _ _ _ _ _ _) ?_ (fun _ h => QuietImp.imp _ h))
 
 end Morfuse.Emit
